@@ -57,6 +57,12 @@ CHECKS = {
             "hand-out against the optimistic rule (evaluated-once/k-times, sweep order, best-of-depth, monotone sweep, one expansion per DOO pull).",
             "Sweep order = depth-major, creation order within depth; any arg-max accepted on ties.",
             "stateless bounded-exhaustive script enumeration of the implementation in lock-step with a reference model of the optimistic sweep"),
+    "C11": ("model_checking", "3 C11",
+            "Zooming x 11 partition variants x d in {1,2} x three (nu,rho) sets; every reward sequence in {0,1,-1}^7 and scripts within k "
+            "deviations over 70-120 rounds (five phase boundaries); per round: arms inside their cells, every leaf owned by an active "
+            "arm, pulled arm maximises the index with a reference phase counter, refinement exactly when radius <= nu*rho^depth, fresh arms at the centres of the other children.",
+            "Phase-boundary rounds where old/new phase disagree on refinement are counted ambiguous; tolerance 1e-9.",
+            "stateless bounded-exhaustive script enumeration of the implementation in lock-step with a reference checker (coverage invariant + index/refinement rule)"),
 }
 
 LATER = {
